@@ -474,7 +474,14 @@ class EndpointResponseHandlerGenerator:
                         self._write_strategy_based_return(writer, strategy, context)
                 elif resp_ir.status_code.startswith("2"):
                     # Other 2xx success responses - resolve each response individually
-                    if not resp_ir.content:
+                    if strategy.is_streaming:
+                        # The method is an async generator, where `return <value>` is a SyntaxError: a further
+                        # 2xx response is consumed like the primary one, or ends the iteration if it has no body.
+                        if resp_ir.content:
+                            self._write_strategy_based_return(writer, strategy, context)
+                        else:
+                            writer.write_line("return  # Explicit return for async generator")
+                    elif not resp_ir.content:
                         writer.write_line("return None")
                     else:
                         # Resolve the specific return type for this response
